@@ -369,12 +369,14 @@ func TestVF_C30_Witness(t *testing.T) {
 
 type c30GateS3 struct {
 	c30S3
-	bodies  map[string][]byte
-	gateKey string
-	gateAt  int
-	atGate  chan struct{}
-	release chan struct{}
-	once    sync.Once
+	bodies   map[string][]byte
+	gateKey  string
+	gateAt   int
+	atGate   chan struct{}
+	release  chan struct{}
+	once     sync.Once
+	gmu      sync.Mutex
+	gateUsed bool
 }
 
 type c30GateReader struct {
@@ -415,7 +417,13 @@ func (f *c30GateS3) GetObject(ctx context.Context, in *s3.GetObjectInput, _ ...f
 		return nil, errors.New("NoSuchKey")
 	}
 	ln := int64(len(b))
-	return &s3.GetObjectOutput{Body: io.NopCloser(&c30GateReader{s: f, b: b, g: k == f.gateKey && f.gateAt < len(b)}), ContentLength: &ln}, nil
+	gate := false
+	f.gmu.Lock()
+	if k == f.gateKey && !f.gateUsed && f.gateAt < len(b) {
+		f.gateUsed, gate = true, true // only the first reader of the key is gated
+	}
+	f.gmu.Unlock()
+	return &s3.GetObjectOutput{Body: io.NopCloser(&c30GateReader{s: f, b: b, g: gate}), ContentLength: &ln}, nil
 }
 
 func c30DownloadOnce(m *lfsModule, key string, blob []byte, requestID string) *httptest.ResponseRecorder {
@@ -476,10 +484,6 @@ func TestVF_C30_DownloadConcurrent(t *testing.T) {
 		gateAt := rapid.IntRange(0, len(blobB)).Draw(t, "gateAt")
 		fs := &c30GateS3{bodies: map[string][]byte{keyA: blobA, keyB: blobB}, gateKey: keyB, gateAt: gateAt,
 			atGate: make(chan struct{}), release: make(chan struct{})}
-		if sameObject {
-			// only the FIRST reader of the shared key is gated
-			fs.gateKey = keyB
-		}
 		m := c30Module(fs, 1<<20, false)
 		st.Class("request-ids:" + idKind)
 
